@@ -34,8 +34,13 @@ def main():
             print(log)
             print("framework build failed", file=sys.stderr)
             return 2
+        # the executable of the translated functions follows the current sources; if what the code says now
+        # no longer elaborates (e.g. a loop whose termination proof fails) that is a broken obligation
+        gok, glog = lake_build(("gendriver",))
+        res.gendriver_ok, res.gendriver_log = gok, ("" if gok else glog[-1500:])
     else:
         res.gen_ok, res.gen_log = True, "skipped"
+        res.gendriver_ok, res.gendriver_log = True, ""
     try:
         mod.run(res, tier)
     except Exception:  # noqa: BLE001
